@@ -27,6 +27,8 @@ var c04Kinds = []struct{ name, lit string }{
 	// values that arrive with the request rather than from a literal (the matrix request carries them):
 	// an undeclared query parameter given twice, one the server auto-converts, a header value
 	{"qrep", "query.rep"}, {"qauto", "query.num"}, {"hdr", `headers["X-H"]`},
+	// a module function used as a value (every matrix program declares `helper`)
+	{"fn", "helper"},
 }
 
 const c04MatrixURL = "http://verif.test/m?rep=a&rep=b&num=5"
@@ -72,7 +74,7 @@ func interpreterBuiltinNames() []string {
 
 func c04MatrixCases(yield func(c04Case) bool) {
 	emit := func(label, body string) bool {
-		src := "@ GET /m {\n" + body + "\n}\n"
+		src := "! helper(x: int): int {\n  > x\n}\n@ GET /m {\n" + body + "\n}\n"
 		for _, mode := range []string{"compiled", "interpreted"} {
 			if !yield(c04Case{Label: label, Src: src, Mode: mode}) {
 				return false
